@@ -27,6 +27,22 @@ LEVEL_NOTE = (
 
 CHECKS = {
     # id: (technique, level text, design ref, extra note)
+    "C01": (
+        "deterministic simulation: seeded product chains with the operands' cache state set by warm/evict faults and update_full flips; step oracle = operands' point-wise log-values recorded before the call + bit-exact operand snapshots",
+        "Seeded search over chains of multiply / * / hadamard / product() where fast paths consume objects produced by fast paths, under schedules that decide whether the operand's covariance is cached (cold / lnZ-only / warm), flip update_full, alias operands and evict. After each product: result == u_i(x) f_j(x) in the documented layout at (D+1)(D+2)/2+1 generic points, operands bit-identical, twins agree. Exploration level (sampling).",
+        "DESIGN.md section 4 (C01)",
+    ),
+    "C11": (
+        "deterministic simulation: one model executed under K seeded schedules (delivery order permutations x per-step route a/b/c x restart/evict/warm faults on the carried posterior), compared with each other and with a dense numpy joint",
+        "Seeded search over update histories: permutations of the observation order, route per step (conditional transformation / joint+conditioning / one-shot likelihood product), faults between steps; Kalman variant with prediction steps against the dense joint over all states and observations. Posterior mean, covariance and accumulated evidence must be schedule independent. Exploration level (sampling of schedules, not all N! orders).",
+        "DESIGN.md section 4 (C11)",
+        "Route (c) evidence for Dy != Dw is an open known finding (K01) with an exact predictor; any other discrepancy still fires.",
+    ),
+    "C19": (
+        "deterministic simulation: simulator-owned PRNG key stream; sample() calls interleaved with rekey / warm / evict / restore faults and eager-vs-jit context flips; replay (bit-exact), structural (affine image of the key's normal stream) and 6-sigma statistical oracles",
+        "Seeded search over histories that reach densities through constructors, products, slicing, conditioning and transformations, then draw with simulator-owned keys. Replaying the same (density, key, n) later in the history is bit-identical; twins under interleaved sampling and cache faults agree; draws are mu + L z with L L' = Sigma for the key's own normal stream (abstains if another valid use of the stream is made); moments within 6 standard errors for fixed keys. Exploration level.",
+        "DESIGN.md section 4 (C19)",
+    ),
     "C02": (
         "deterministic simulation: seeded operation histories with cache-state faults (warm/evict/update_full flips); step invariant I_mass against numpy closed-form integrals, evaluated on clones",
         "Seeded search over operation histories and fault schedules (sampling). After every step, every measure/density the step created or mutated is checked: the function it evaluates to, all integral variants, unit mass and independent normal log-density for densities, get_density/normalize. Exploration level: finds history-dependent mass errors (stale lnZ, carried log-dets, determinant-lemma slips) that single-call tests cannot reach; a clean batch is evidence, not proof.",
